@@ -10,7 +10,7 @@ ID = 'C08'
 LEVEL = 'fault_enumeration'
 BUDGET = {'quick': (3000, 80.0), 'thorough': (60000, 1500.0)}
 CHUNK = 40
-RULE = ('enumeration: for each shape (RTS/CTS windows 1, 2, all, asymmetric 255/2, paced with a 1 ms packet interval, and BAM; J1939-21 and -22; 3-5 packets) a traced clean run lists every source-line '
+RULE = ('enumeration: for each shape (RTS/CTS windows 1, 2, all, asymmetric 255/2, paced with a 1 ms packet interval, chained transfers submitted from the receive callback, and BAM; J1939-21 and -22; 3-5 packets) a traced clean run lists every source-line '
         'event executed by each stack\'s job thread during the transfer; then one run per (stack, file, line, n-th hit) parks that thread there for '
         '0.2 / 1 / 5 ms of bus time (cycled over the points in quick, all three in thorough) while frame reception on the same stack continues. '
         'Sampled runs draw two pre-emption points, random sizes, windows and latencies in (0, 1 ms]. non-trivial = the chosen pre-emption fired; '
@@ -43,6 +43,11 @@ def shapes():
         for st in b['stacks']:
             st['rts_cts_interval'] = 0.001
         out.append(b)
+        # chained transfers: on delivery the receiving application pulls the next message with a single frame, and the
+        # originating application submits it from its receive callback (i.e. from the thread that feeds frames in)
+        c = base_scn(dll, 'cmdt', 255, npk=3)
+        c['chain'] = True
+        out.append(c)
     return out
 
 
@@ -119,6 +124,30 @@ def execute(scn, keep_log=False, hook=None):
     for t in tr.values():
         t.armed = True
     rx_before = {n: s.port.rx_count for n, s in w.stacks.items()}
+    data2 = payload(scn['fill'] + 1, scn['len'] + 3)
+    chain = {'pulled': False, 'accepted': None, 'tries': 0}
+    if scn.get('chain'):
+        R = w.stacks['R']
+
+        def r_app(priority, pgn, sa, timestamp, d):
+            # receiving application: got the first message -> pull the next one
+            if pgn == 0xD000 and not chain['pulled'] and bytes(bytearray(d)) == bytes(data):
+                chain['pulled'] = True
+                R.cas[0].send_pgn(0, 0xD8, O_ADDR, 6, [1, 2, 3])
+
+        def o_submit():
+            chain['tries'] += 1
+            r = O.cas[0].send_pgn(0, 0xD0, R_ADDR, 6, list(data2))
+            if r is True:
+                chain['accepted'] = sim.now
+            elif chain['tries'] < 60:
+                sim.after(2_000_000, o_submit, 'op')     # pair / session busy: the application tries again 2 ms later
+
+        def o_app(priority, pgn, sa, timestamp, d):
+            if pgn == 0xD800 and chain['accepted'] is None and chain['tries'] == 0:
+                o_submit()
+        R.cas[0].subscribe(r_app)
+        O.cas[0].subscribe(o_app)
     ok = O.cas[0].send_pgn(0, pf, ps, 6, list(data))
     viol = []
     if ok is not True:
@@ -135,10 +164,11 @@ def execute(scn, keep_log=False, hook=None):
                 rx_parked[0] += 1
             orig(fr)
         s.port.deliver = wrapped
-    cap = 0.5 + npk * ((0.05 if not fd else 0.012) if mode == 'bam' else 0.01)
+    cap = 0.5 + npk * ((0.05 if not fd else 0.012) if mode == 'bam' else 0.01) + (0.3 if scn.get('chain') else 0)
     for _ in range(int(cap / 0.02) + 1):
         sim.run_for(0.02)
-        if not common.busy(w) and not any(s.job.parked_at == 'preempt' for s in w.stacks.values()) and sim.now - t0 > 60_000_000:
+        if not common.busy(w) and not any(s.job.parked_at == 'preempt' for s in w.stacks.values()) and sim.now - t0 > 60_000_000 and (
+                not scn.get('chain') or (chain['accepted'] is not None and sim.now - chain['accepted'] > 20_000_000) or chain['tries'] >= 60):
             break
     for t in tr.values():
         t.armed = False
@@ -151,6 +181,15 @@ def execute(scn, keep_log=False, hook=None):
     e, x = common.expected_deliveries(scn, m, data, meta)
     exp.update(e)
     extra.update(x)
+    if scn.get('chain'):
+        if chain['accepted'] is None:
+            viol.append({'clause': 'chained-send-never-accepted', 'rank': 3, 'msg': 'the follow-on message was refused %d times over %d ms' % (chain['tries'], chain['tries'] * 2)})
+        else:
+            m2 = dict(m, len=len(data2))
+            e, x = common.expected_deliveries(scn, m2, data2, meta)
+            exp.update(e)
+            extra.update(x)
+        exp[('O', 'ca0', 0xD800, R_ADDR, bytes([1, 2, 3]))] += 1
     viol += common.thread_violations(w)
     viol += common.compare_deliveries(w, exp, extra, meta=meta)
     if late and not viol:
